@@ -174,3 +174,63 @@ Proof.
   unfold eff_answer in *. unfold exp_hash, exp_len in *. cbn [g_H g_entry g_hash g_data g_nbytes] in *.
   destruct (body_ok _ _ _ _ _); [|exact Hacc]. unfold timed. rewrite Hl. exact Hacc.
 Qed.
+
+(* ------------------------------------------------------------------ the discovery cache around a refresh *)
+(* the list of the last successful fetch, provided no clear came after it *)
+Fixpoint fresh_list (cur : option (list dsvc)) (evs : list cache_event) : option (list dsvc) :=
+  match evs with
+  | [] => cur
+  | EvClear :: r => fresh_list None r
+  | EvFetched l :: r => fresh_list (Some l) r
+  end.
+
+Theorem cache_offers_only_fresh evs : forall st,
+  cache_offer (cache_run st evs) = fresh_list (cache_offer st) evs.
+Proof.
+  induction evs as [|e evs IH]; intros st; cbn [cache_run fold_left fresh_list]; [reflexivity|].
+  fold (cache_run (cache_step st e) evs). rewrite IH. destruct e; reflexivity.
+Qed.
+
+(* after a clear nothing is offered (a KeepClient that asks blocks) until a fetch succeeds, and then it is that fetch's list:
+   a list obtained before the last refresh request is never handed out *)
+Theorem cache_never_stale_after_clear st pre post :
+  (forall l, ~ In (EvFetched l) post) -> cache_offer (cache_run st (pre ++ EvClear :: post)) = None.
+Proof.
+  intros Hno. rewrite cache_offers_only_fresh.
+  assert (G : forall cur, fresh_list cur (pre ++ EvClear :: post) = fresh_list None post).
+  { induction pre as [|e pre IH]; intros cur; cbn [app fresh_list]; [reflexivity|]. destruct e; apply IH. }
+  rewrite G. clear G. induction post as [|e post IH]; [reflexivity|]. destruct e as [|l].
+  - cbn [fresh_list]. apply IH. intros l H. apply (Hno l). right. exact H.
+  - exfalso. apply (Hno l). left. reflexivity.
+Qed.
+
+Theorem cache_offers_last_fetch st pre l :
+  cache_offer (cache_run st (pre ++ [EvFetched l])) = Some l.
+Proof.
+  rewrite cache_offers_only_fresh.
+  generalize (cache_offer st). induction pre as [|e pre IH]; intros cur; cbn [app fresh_list]; [reflexivity|]. destruct e; apply IH.
+Qed.
+
+(* the oracle of stage c11refresh: every PUT of a Put that started after the refresh request went to a writable root of
+   the refreshed (last) list *)
+Theorem refresh_spec_b_reflects c : f_lists c <> [] ->
+  (refresh_spec_b c = true <->
+   (NoDup (map d_uuid (current_list (f_lists c))) ->
+    forall u, In u (f_contacted c) ->
+      exists uuid, In (uuid, u) (r_writable (k_roots (load_all kstate0 (f_lists c)))))).
+Proof.
+  intros Hne. unfold refresh_spec_b, uuids_distinct_b. rewrite (load_all_current kstate0 _ Hne).
+  set (l := current_list (f_lists c)). rewrite orb_true_iff, negb_true_iff, forallb_forall.
+  assert (M : NoDup (map d_uuid l) -> forall u,
+              existsb (String.eqb u) (map d_url (filter writable_svc (kept l))) = true <->
+              exists uuid, In (uuid, u) (r_writable (load_roots l))).
+  { intros Hnd u. destruct (load_roots_maps l Hnd) as (_ & -> & _). rewrite existsb_exists. split.
+    - intros (x & Hx & E). apply String.eqb_eq in E. subst x. apply in_map_iff in Hx. destruct Hx as (s & <- & Hs).
+      exists (d_uuid s). change (In (root_entry s) (map root_entry (filter writable_svc (kept l)))). apply in_map. exact Hs.
+    - intros (uuid & H). apply in_map_iff in H. destruct H as (s & E & Hs). unfold root_entry in E. injection E as _ <-.
+      exists (d_url s). split; [apply in_map; exact Hs|apply String.eqb_refl]. }
+  split.
+  - intros [H|H] Hnd u Hu; [apply nodup_b_iff in Hnd; congruence|]. apply (M Hnd). apply H. exact Hu.
+  - intros H. destruct (nodup_b (map d_uuid l)) eqn:E; [|left; reflexivity]. right. apply nodup_b_iff in E.
+    intros u Hu. apply (M E). apply H; assumption.
+Qed.
